@@ -218,16 +218,25 @@ IntervalBody(r, n, sec) == LET lay  == Layout(r, n)
                                          [] lay.notes = 1 -> <<"#osmosis replication state, timestamp=1970-01-01T00\\:00\\:00Z">>
                                          [] lay.notes = 2 -> <<"! written by osmosis", "#sequenceNumber = 0 : see timestamp">>
                            IN JoinLines(<<"#" \o PropsDate(sec + 1)>> \o note \o [i \in 1 .. Len(keys) |-> PropsLine(r, n, sec, lay, keys[i])], eol)
-\* NNN.state.txt / state.yaml of changeset replication: the sequence inside is one less than the file's name
-ChangesetBody(r, n, sec, nsec) == LET eol == IF Layout(r, n).crlf = 1 THEN "\r\n" ELSE "\n" IN
-  "---" \o eol \o "last_run: " \o YamlTime(sec, nsec, IF r.style = 0 THEN "+00:00" ELSE "Z") \o eol \o "sequence: " \o ToString(n - 1) \o eol
+\* NNN.state.txt / state.yaml of changeset replication.  Two conventions for the `sequence:` value exist on the
+\* planet: the oldest files (2007990 .. 2008003) write their own number, all files from the seam 2008004 on - and
+\* state.yaml, the current state - write one less than the name of the newest file ("a consistent mistake",
+\* changesets.go).  The state's sequence number is the file's NAME in both cases.  r.seam is the directory's seam:
+\* files n < seam write n, files n >= seam write n-1 (seam <= first: all minus one, seam > cur: all equal).
+SequenceInside(r, n) == IF n < r.seam THEN n ELSE n - 1
+ChangesetBody(r, n, sec, nsec, inside) == LET eol == IF Layout(r, n).crlf = 1 THEN "\r\n" ELSE "\n" IN
+  "---" \o eol \o "last_run: " \o YamlTime(sec, nsec, IF r.style = 0 THEN "+00:00" ELSE "Z") \o eol \o "sequence: " \o ToString(inside) \o eol
 
-\* rendering parameters r: a time assignment + [style \in {0,1}, lay, lists (file layout, above), prefix (path
-\* prefix of a mirror, may be "")]
+\* rendering parameters r: a time assignment + [style \in {0,1}, lay, lists (file layout, above), seam (changeset
+\* kind), prefix (path prefix of a mirror, may be "")]
 Body(r, n) == LET sec == Sec(r, TS(n)) IN
-  IF r.kind = "changesets" THEN ChangesetBody(r, n, sec, Nsec(r.kind, TS(n))) ELSE IntervalBody(r, n, sec)
+  IF r.kind = "changesets" THEN ChangesetBody(r, n, sec, Nsec(r.kind, TS(n)), SequenceInside(r, n)) ELSE IntervalBody(r, n, sec)
 FileOf(r, n)     == [path |-> r.prefix \o StateURL(r.kind, n), body |-> Body(r, n)]
-CurrentFile(r, c) == [path |-> r.prefix \o CurrentURL(r.kind), body |-> Body(r, Cur(c))]   \* a copy of the newest state file
+\* the current state: a copy of the newest state file; state.yaml always in the current (minus one) convention
+CurrentFile(r, c) == [path |-> r.prefix \o CurrentURL(r.kind),
+                      body |-> IF r.kind = "changesets"
+                                 THEN ChangesetBody(r, Cur(c), Sec(r, TS(Cur(c))), Nsec(r.kind, TS(Cur(c))), Cur(c) - 1)
+                                 ELSE Body(r, Cur(c))]
 
 \* every request has to be for the current-state file or for a well-formed state URL of that kind
 WellFormedURL(r, path, n) == path = r.prefix \o URL(r.kind, IF n >= 1 THEN n ELSE 0)
